@@ -4,7 +4,7 @@ mod under;
 use rapidhash::quality::RapidHasher;
 use std::{
     boxed,
-    cell::RefCell,
+    cell::{Cell, RefCell},
     collections::HashMap,
     error::Error,
     fmt,
@@ -38,6 +38,29 @@ macro_rules! dbgln {
     }
 }
 pub(crate) use dbgln;
+
+thread_local! {
+    /// Whether an inverse made since this was last reset takes a span
+    /// from the end of the assembly's spans table
+    static USED_LAST_SPAN: Cell<bool> = const { Cell::new(false) };
+}
+
+/// Note that the inverse being made takes a span from the end of the assembly's spans table
+fn note_last_span_used() {
+    USED_LAST_SPAN.set(true);
+}
+
+/// Make an inverse and get whether it may be kept in a cache
+///
+/// An inverse that takes a span from the end of the assembly's spans table
+/// only holds for the assembly as it is now, and so must not be used again.
+fn cacheable<T>(make: impl FnOnce() -> T) -> (T, bool) {
+    let outer = USED_LAST_SPAN.replace(false);
+    let res = make();
+    let used = USED_LAST_SPAN.replace(false);
+    USED_LAST_SPAN.set(outer || used);
+    (res, !used)
+}
 
 trait AsNode: fmt::Debug + Sync {
     fn as_node(&self, span: usize) -> Node;
